@@ -26,6 +26,7 @@
 //
 //	lifet <op,…>      as life, but both servers run with an idle Timeout of 1 s (a session that keeps talking is never idle)
 //	b<i>:<ms>         keep session i busy for <ms> milliseconds: a NOOP every 200 ms, each answered        -> last reply
+//	b<i>:<ms>:s       every client stays completely SILENT for <ms> milliseconds, then session i sends one NOOP      -> its reply
 //
 //	stls <op,…>       as life, but the POP3 server runs with TLSEnabled (not ForceTLS): sessions start in plain text and
 //	                  may upgrade;  t<i> = session i sends STLS, gets +OK, and the client performs the TLS handshake -> +OK | tlsfail
@@ -658,6 +659,13 @@ func runLife(ops []string, tlsPOP3 bool) []string {
 				continue
 			}
 			last := "?"
+			if len(f) > 2 && f[2] == "s" {
+				// silent variant: nothing at all is sent for <ms> milliseconds (no session of this driver is: it has one
+				// goroutine), then ONE NOOP, which must be answered as usual
+				time.Sleep(time.Duration(vh.AtoI(f[1])) * time.Millisecond)
+				outs = append(outs, c.cmd("NOOP"))
+				continue
+			}
 			until := time.Now().Add(time.Duration(vh.AtoI(f[1])) * time.Millisecond)
 			for time.Now().Before(until) {
 				last = c.cmd("NOOP")
